@@ -119,21 +119,22 @@ func (e evrec) String() string { return fmt.Sprintf("%s %s@%s", e.Type, e.Key, e
 // mirror replays an event stream into a map and checks C02 well-formedness
 // against it.  It is owned by one consumer goroutine; readers take the mutex.
 type mirror struct {
-	mu      sync.Mutex
-	name    string
-	seeded  bool
-	m       kit.Snap
-	seq     []evrec
-	errs    []string
-	closed  bool
-	cache   kcache.CacheReader // optional: C05 cache clause
-	maxSeen map[string]int     // newest version received per key since its last delete
-	nread   int
-	cerrs   []string
-	ready   <-chan struct{}
-	preRdy  int // events received before Ready() closed
-	stopped chan struct{}
-	pause   chan struct{} // non-nil: consumer does not read (stalled)
+	mu       sync.Mutex
+	name     string
+	seeded   bool
+	m        kit.Snap
+	seq      []evrec
+	errs     []string
+	closed   bool
+	cache    kcache.CacheReader // optional: C05 cache clause
+	maxSeen  map[string]int     // newest version received per key since its last delete
+	nread    int
+	noReplay bool // the producer emits strictly increasing versions and never replays
+	cerrs    []string
+	ready    <-chan struct{}
+	preRdy   int // events received before Ready() closed
+	stopped  chan struct{}
+	pause    chan struct{} // non-nil: consumer does not read (stalled)
 }
 
 func (m *mirror) addErr(s string) {
@@ -192,7 +193,9 @@ func (m *mirror) apply(e kcache.Event) {
 	if e.Type() == kcache.EventTypeDelete {
 		// after the delete of an object last received at version V, the cache may hold
 		// the key again only in a NEWER incarnation
-		if prev, ok := m.maxSeen[k]; ok && m.cache != nil && cerr == nil && cached != nil && kit.Atoi(cached.GetResourceVersion()) <= prev && len(m.cerrs) < 5 {
+		// (only where the producer never replays history: behind a real watch an OLD list
+		// followed by the replay of the stream re-creates the same version legitimately)
+		if prev, ok := m.maxSeen[k]; ok && m.noReplay && m.cache != nil && cerr == nil && cached != nil && kit.Atoi(cached.GetResourceVersion()) <= prev && len(m.cerrs) < 5 {
 			m.cerrs = append(m.cerrs, fmt.Sprintf("%s: on receiving delete %s the cache (%s) still returned %s@%s although version %d of that object had been received before the delete", m.name, k, via, k, cached.GetResourceVersion(), prev))
 		}
 		delete(m.maxSeen, k)
